@@ -470,7 +470,17 @@ func (c *Ctx) mapRangeOrderInsensitive(fn *ssa.Function, rg *ssa.Range) (string,
 				for _, r1 := range *ld.Referrers() {
 					if mi, ok := r1.(*ssa.MakeInterface); ok {
 						for _, r2 := range *mi.Referrers() {
-							if call, ok := r2.(*ssa.Call); ok && call.Call.StaticCallee() != nil && strings.HasPrefix(call.Call.StaticCallee().String(), "sort.") {
+							if call, ok := r2.(*ssa.Call); ok && isSortCall(call, mi) {
+								sortBlock = call.Block()
+							}
+						}
+					}
+					if call, ok := r1.(*ssa.Call); ok && isSortCall(call, ld) {
+						sortBlock = call.Block()
+					}
+					if ct, ok := r1.(*ssa.ChangeType); ok {
+						for _, r2 := range *ct.Referrers() {
+							if call, ok := r2.(*ssa.Call); ok && isSortCall(call, ld) {
 								sortBlock = call.Block()
 							}
 						}
@@ -524,6 +534,7 @@ func (c *Ctx) mapRangeOrderInsensitive(fn *ssa.Function, rg *ssa.Range) (string,
 			return "appended slice does not flow through the loop header", false
 		}
 		sorted := false
+		var sortBlock0 *ssa.BasicBlock
 		for _, ref := range *phi.Referrers() {
 			ins := ref
 			if loop.body[ins.Block()] {
@@ -532,13 +543,24 @@ func (c *Ctx) mapRangeOrderInsensitive(fn *ssa.Function, rg *ssa.Range) (string,
 			switch x := ins.(type) {
 			case *ssa.MakeInterface:
 				for _, r2 := range *x.Referrers() {
-					if call, ok := r2.(*ssa.Call); ok {
-						if cal := call.Call.StaticCallee(); cal != nil && (cal.String() == "sort.Slice" || cal.String() == "sort.SliceStable" || cal.String() == "sort.Sort") {
-							sorted = true
-						}
+					if call, ok := r2.(*ssa.Call); ok && isSortCall(call, x) {
+						sorted = true
+						sortBlock0 = call.Block()
 					}
 				}
-			case *ssa.MakeClosure, *ssa.Return, *ssa.Call, *ssa.Store:
+			case *ssa.ChangeType:
+				for _, r2 := range *x.Referrers() {
+					if call, ok := r2.(*ssa.Call); ok && isSortCall(call, phi) {
+						sorted = true
+						sortBlock0 = call.Block()
+					}
+				}
+			case *ssa.Call:
+				if isSortCall(x, phi) {
+					sorted = true
+					sortBlock0 = x.Block()
+				}
+			case *ssa.MakeClosure, *ssa.Return, *ssa.Store:
 				// uses after the sort are fine; we require the sort call to dominate them
 			}
 		}
@@ -546,16 +568,7 @@ func (c *Ctx) mapRangeOrderInsensitive(fn *ssa.Function, rg *ssa.Range) (string,
 			return "the slice collected from the map is not sorted before use", false
 		}
 		// the sort must dominate every Return that returns the slice
-		var sortBlock *ssa.BasicBlock
-		for _, ref := range *phi.Referrers() {
-			if mi, ok := ref.(*ssa.MakeInterface); ok {
-				for _, r2 := range *mi.Referrers() {
-					if call, ok := r2.(*ssa.Call); ok && call.Call.StaticCallee() != nil && strings.HasPrefix(call.Call.StaticCallee().String(), "sort.") {
-						sortBlock = call.Block()
-					}
-				}
-			}
-		}
+		sortBlock := sortBlock0
 		for _, ref := range *phi.Referrers() {
 			if ret, ok := ref.(*ssa.Return); ok && sortBlock != nil && !sortBlock.Dominates(ret.Block()) {
 				return "the collected slice can be returned without passing the sort", false
@@ -564,6 +577,30 @@ func (c *Ctx) mapRangeOrderInsensitive(fn *ssa.Function, rg *ssa.Range) (string,
 		// the comparison closure must be a strict total order on distinct keys: we require it to compare the elements themselves
 	}
 	return "collect-then-sort idiom: the body only appends keys to a slice that is sorted before it is used", true
+}
+
+// isSortCall: call sorts the slice v in place: sort.Slice / sort.SliceStable / sort.Sort on v wrapped into an
+// interface (mi), or slices.Sort / slices.SortFunc / slices.SortStableFunc on v itself.
+func isSortCall(call *ssa.Call, v ssa.Value) bool {
+	cal := call.Call.StaticCallee()
+	if cal == nil || len(call.Call.Args) == 0 {
+		return false
+	}
+	name := cal.String()
+	if o := cal.Origin(); o != nil {
+		name = o.String()
+	}
+	switch {
+	case name == "sort.Slice" || name == "sort.SliceStable" || name == "sort.Sort" || name == "sort.Stable":
+		return call.Call.Args[0] == v
+	case name == "slices.Sort" || name == "slices.SortFunc" || name == "slices.SortStableFunc":
+		a := call.Call.Args[0]
+		if ct, ok := a.(*ssa.ChangeType); ok {
+			a = ct.X
+		}
+		return a == v
+	}
+	return false
 }
 
 // indexedCollect: st is `s[n] = v` executed in every iteration of loop, with s the current value of a captured
